@@ -25,6 +25,10 @@ CLAIMED = {
    text="The *_with_certificate entry points on every argument, half of the frameworks with several components and/or sparse ids: certificate present exactly when promised, is an extension of the right semantics (CO for DC-PR), contains / omits the argument, members carry the framework's own label and id, no duplicates.", note="as C01", ref="DESIGN.md 5/C04"),
  "C07": dict(level="exploration", technique=TECH + "argument lists x frameworks x SAT-oracle behaviours, RefSem oracle)",
    text="Lists of 1-3 arguments (repetitions, same/different components) through are_*_accepted[_with_certificate] of all static solvers; status = disjunction per RefSem, with/without certificate agree, certificate valid for the disjunction.", note="as C01", ref="DESIGN.md 5/C07"),
+ "C08": dict(level="exploration", technique=TECH + "update/query histories x SAT-oracle behaviours on the six dynamic solvers, lock-step RefStore + RefSem oracle)",
+   text="Generated operation histories (valid updates incl. re-adding removed labels, queries with/without certificate, swarm weights hitting the answer cache, slot exhaustion/re-encoding, shrink-and-regrow) against all six dynamic solver kinds and every reservation factor, under a simulated SAT backend whose arbitrary models decide what the caches hold; every answer and certificate is checked against brute-force semantics of the lock-step set model.", note="Trusted: RefStore/RefSem; certificate members judged by label. <= 7 live arguments, histories <= 63 steps.", ref="DESIGN.md 5/C08"),
+ "C09": dict(level="exploration", technique=TECH + "histories with an injected stream of redundant/invalid updates, lock-step RefStore + RefSem oracle, liveness after faults stop)",
+   text="C08 histories plus a fault stream of redundant and invalid updates placed preferentially right after un-flushed updates: the update call itself must return Err (invalid) / Ok (redundant), the model is unchanged, all later answers match the unchanged model, no panic, and >= 3 fault-free queries at the end must be served (usable once faults stop).", note="as C08", ref="DESIGN.md 5/C09"),
  "C12": dict(level="exploration", technique=TECH + "operation histories incl. invalid/redundant operations, set-model refinement after every step)",
    text="Seeded update histories (3-80 operations over 1-8 labels, usize and String, invalid and redundant operations included) on AAFramework, compared after EVERY operation with a trivial set model on all public observables (counts, id order, lookups, three attack iterators, grounded extension, id stability, Err for invalid operations).", note="Trusted: RefStore set model. Sampling of histories; universes of at most 8 labels.", ref="DESIGN.md 5/C12"),
  "C17": dict(level="fault_enumeration", technique="deterministic simulation with fault injection (enumeration of SAT-call position x fault kind per sampled query, at the SatSolver trait and through the real DIMACS reply parser)",
